@@ -484,9 +484,77 @@ def check_fresh_records(run, rule):
     run.floor(rule, 2, "records built and stored inside loops")
 
 
+# ------------------------------------------------------------------ R01.11 what a record leaves in the block is cleared with it
+
+def check_block_state_cleared(run, rule):
+    """Every member of CdnsBlock that buffering a record can change (reached from CdnsExporter::buffer_*) describes the
+    block being filled; CdnsBlock::clear() - called when that block has been written - has to re-initialise it, or the next
+    block starts from state (a memoised index, a count, a time) that refers to tables which no longer exist."""
+    from ..callgraph import CallGraph
+    facts = run.facts
+    BLK = "CDNS::CdnsBlock"
+    clr = facts.fn(BLK + "::clear", rule=rule)
+    cg = CallGraph(facts)
+    entries = [f for f in facts.functions.values()
+               if f.get("cls") == "CDNS::CdnsExporter" and f["qn"].split("::")[-1].startswith("buffer_")]
+    if not entries:
+        raise AnalysisBroken(rule, "no CdnsExporter::buffer_* entry point found")
+    # what buffering does to the block: the CdnsBlock methods buffer_* calls on its block (writing the full block out
+    # is a different step, with its own obligations)
+    adders = {}
+    for e in entries:
+        for c in ir.calls_in(e["body"]):
+            if c.get("k") == "MCall" and path(c.get("recv")) == ("this", "m_block"):
+                for g in cg.resolve(c, e):
+                    adders[g["key"]] = g
+    if not adders:
+        raise AnalysisBroken(rule, "CdnsExporter::buffer_* call nothing on m_block")
+    reach = cg.reachable(list(adders.values()))
+    fields = {fl["n"] for fl in facts.record(BLK, rule=rule)["fields"]}
+
+    def writes(f):
+        out = {}
+        for n in ir.walk(f["body"]):
+            k = n.get("k")
+            tgt = None
+            if k == "Bin" and n.get("op", "").endswith("=") and n["op"] not in ("==", "!=", "<=", ">="):
+                tgt = path(n["lhs"])
+            elif k == "Un" and n.get("op") in ("pre++", "post++", "pre--", "post--"):
+                tgt = path(n["e"])
+            elif k in ("MCall", "OpCall"):
+                cal = n.get("callee") or {}
+                r = n.get("recv") if k == "MCall" else (n.get("args") or [None])[0]
+                if not cal.get("const") and r is not None:
+                    tgt = path(r)
+                    if k == "OpCall" and n.get("op") not in ("=", "+=", "-=", "++", "--", "[]"):
+                        tgt = None
+            if tgt and len(tgt) >= 2 and tgt[0] == "this" and tgt[1] in fields:
+                tgt = tuple(x for x in tgt if not x.startswith("["))
+                out.setdefault(tgt, n.get("l", f["line"]))
+        return out
+
+    touched = {}
+    for f in reach.values():
+        if f.get("cls") != BLK or f.get("ctor") or f.get("body") is None or f["key"] == clr["key"]:
+            continue
+        for tgt, ln in writes(f).items():
+            touched.setdefault(tgt, (f, ln))
+    resets = writes(clr)
+    n = 0
+    for tgt, (f, ln) in sorted(touched.items()):
+        n += 1
+        ok = any(tgt[:len(r)] == r for r in resets)
+        run.ob(rule, "CdnsBlock::clear:resets-%s" % ".".join(tgt[1:]), ok, clr, clr["line"],
+               "%s (changed by %s) is re-initialised by clear()" % (".".join(tgt[1:]), short(f["qn"])) if ok else
+               "%s:%d changes %s while a record is buffered, but clear() leaves it as it is: the next block starts with state that "
+               "describes the block already written" % (short(f["qn"]), ln, ".".join(tgt[1:])))
+    run.floor(rule, 10, "block members changed by buffering")
+
+
 def check(run):
     facts = run.facts
     check_fresh_records(run, "R01.10")
+    check_block_state_cleared(run, "R01.11")
     was = {}
     all_rows = []
     for s in BLOCK_STRUCTS:
@@ -573,7 +641,7 @@ def check(run):
     from . import C06, C07
     from .. import ranges
     C07.check_read_int(run, "R01.9")
-    C07.check_values(run, "R01.9")
+    C07.check_values(run, "R01.9", flag_contract=False)
     C06.check_write_int(run)
     for o in run.obs:
         if o.rule == "R06.1":
